@@ -1,5 +1,10 @@
 import LC.Props.C02
+import LC.Props.C02Words
 #print axioms LC.Score.lev_le_levWord
 #print axioms LC.Score.score_bound
 #print axioms LC.Score.lev_eq_zero_iff
 #print axioms LC.Score.conf_one_only_if_identical
+#print axioms LC.V2Tok.stripDots_subset
+#print axioms LC.V2Tok.cleanupToken_no_blank
+#print axioms LC.V2Tok.interchangeable_values_no_blank_go
+#print axioms LC.V2Tok.goEnv_no_blank
